@@ -61,11 +61,11 @@ TravOK(e) ==
 TravConf(e) == e.out = TraversalOf(e.sym, ToSetI(e.idcs), e.seeds)
 
 Next == /\ l <= Len(Rec)
-        /\ LET e == Rec[l] IN
-           /\ "panic" \notin DOMAIN e
-           /\ IF e.ev = "sym" THEN SymOK(e)
-              ELSE IF e.ev = "trav" THEN TravOK(e) /\ (IF TravConf(e) THEN TRUE ELSE PrintT(<<"NOTE", "traversal order differs from the reference machine", l>>))
-              ELSE FALSE
+        /\ (LET e == Rec[l] IN
+             /\ "panic" \notin DOMAIN e
+             /\ IF e.ev = "sym" THEN SymOK(e)
+                ELSE IF e.ev = "trav" THEN TravOK(e) /\ (IF TravConf(e) THEN TRUE ELSE PrintT(<<"NOTE", "traversal order differs from the reference machine", l>>))
+                ELSE FALSE) = TRUE
         /\ l' = l + 1
 Spec == Init /\ [][Next]_l
 Accepted == LET d == TLCGet("stats").diameter IN
